@@ -76,6 +76,7 @@ def run_country(shard, mon: Mon):
             e = judge.judge_iban_accept(mon, b, table, "W1")
             acc += e.verdict == R.ACCEPT
         mon.tally("countries_with_accept", 1 if acc else 0)
+        judge.from_bban_sloppy_arguments(mon, cc, bases[0][4:], table)
         mon.sample({"family": "W1", "text": bases[0]})
         base = bases[0]
         n = len(base)
